@@ -34,4 +34,37 @@ PROPS = {
             "window semantics: `limit` lines starting `offset` lines from the end, limit<1 = to the end (DESIGN.md 6.6)",
         ],
     },
+    "C02": {
+        "design_ref": "DESIGN.md 5 (C02)",
+        "technique": "Lean 4 theorems over the restart decision table and back-off, regenerated from the source by the translator (Gen = Model by rfl) + exhaustive decision-table differential run",
+        "level_text": "Machine-checked proof (pure part): for every policy string, max_restarts, restart count, exit code and stop flag, isRestartable (regenerated from the source on this run) is true exactly when the availability policy demands a relaunch; never after a stop; never at or beyond max_restarts; back-off = max(1, backoff_seconds). The loop around the decision (relaunch ordering, stop during back-off) is covered by the supervisor model theorems listed in the evidence when present.",
+        "level_note": "Trusted: Lean kernel, mini translator, harness/driver. The wall-clock accuracy of time.After and the run() loop below hook granularity are runtime behaviour not exhibited by the model.",
+        "modules": ["PC.Props.C02"],
+        "theorems": [
+            "PC.Tie.Restart.isRestartable_eq", "PC.Tie.Restart.getBackoffSeconds_eq",
+            "PC.Props.C02.restartable_spec", "PC.Props.C02.restartable_spec_src", "PC.Props.C02.never_for_no",
+            "PC.Props.C02.never_after_stop", "PC.Props.C02.max_bound", "PC.Props.C02.backoff_ge_one", "PC.Props.C02.backoff_ge_one_src",
+        ],
+        "components": [{"name": "restart", "reset": []}],
+        "rule": "exhaustive product policy(8 strings) x max_restarts(-1..4) x restarts(-1..5) x exit code(6 values) x stop flag, plus seeded random tuples and back-off values -3..70 and large ones; distinct by (op,result)",
+        "trusted_base": TB_COMMON + ["modelled, not verified: atomic.Bool.Swap, time.Duration arithmetic"],
+        "assumptions": ["the decision inputs are the values read at the decision point (exit code, Restarts, isStopped)"],
+    },
+    "C10": {
+        "design_ref": "DESIGN.md 5 (C10)",
+        "technique": "Lean 4 theorems over probe defaults / port parsing / fatal decision regenerated from the source (Gen = Model by rfl) + grid differential run; strconv.Atoi model validated against the Go library",
+        "level_text": "Machine-checked proof (pure part): for all integer parameterisations the effective probe parameters are legal and legal values are kept (idempotent); for every port string the effective port is unset or within 1..65535; a check result is fatal exactly when the contiguous-failure count equals the threshold and ok exactly for status ok; a stopped prober reports nothing; k consecutive failures after a success give counter k. Probe-driven state changes (Ready / Not Ready / forgotten, stop and restart at the threshold) are covered by the supervisor model theorems listed in the evidence when present.",
+        "level_note": "Trusted: Lean kernel, mini translator, harness/driver, the strconv.Atoi model (differentially validated on every run). go-health's scheduling of checks (ticker, initial delay, timeouts) is runtime behaviour outside the model.",
+        "modules": ["PC.Props.C10"],
+        "theorems": [
+            "PC.Tie.Probe.validateAndSetDefaults_eq", "PC.Tie.Probe.httpNumPort_eq", "PC.Tie.Probe.healthCheckCompleted_eq",
+            "PC.Props.C10.defaults_legal", "PC.Props.C10.defaults_keep", "PC.Props.C10.defaults_idempotent", "PC.Props.C10.defaults_legal_src",
+            "PC.Props.C10.port_legal", "PC.Props.C10.port_legal_src", "PC.Props.C10.fatal_iff", "PC.Props.C10.stopped_silent",
+            "PC.Props.C10.fatal_iff_src", "PC.Props.C10.contiguous_after", "PC.Props.C10.contiguous_initial",
+        ],
+        "components": [{"name": "probe", "reset": []}, {"name": "atoi", "reset": []}],
+        "rule": "exhaustive grid {-2..3}^5 of probe integers (thorough: 14 values incl. int32/int64 extremes), fixed and random port strings over digits/sign/space/underscore, threshold x counter x status x stopped grid; strconv.Atoi on fixed edge cases and random strings; distinct by (op,result)",
+        "trusted_base": TB_COMMON + ["modelled, not verified: go-health (contiguous-failure counter semantics: reset on success, +1 on failure), strconv.Atoi (PC.Go.atoi, validated differentially)"],
+        "assumptions": ["go-health increments ContiguousFailures by one per failed check and resets it on success"],
+    },
 }
